@@ -593,6 +593,47 @@ func runC19(rn *runner) {
 		}
 		rn.caseSB(b, genTagSet(r), "random")
 	}
+	// bytes.TrimSpace and strings.Fields (re-implemented in the model, Unicode spaces included):
+	// every byte string of length <= 2, and of length 3 and 4 over the bytes that make up the
+	// UTF-8 encodings of the Unicode spaces and their neighbours
+	spaceBytes := []byte{' ', '\t', '\n', '\v', '\f', '\r', 'a', '/', '+', 0x00, 0x1c, 0x1f, 0x7f, 0x80, 0x81, 0x84, 0x85, 0x86, 0x8a, 0x8b, 0x9a, 0x9f, 0xa0, 0xa1, 0xa8, 0xa9, 0xaa, 0xaf,
+		0xc2, 0xc3, 0xe1, 0xe2, 0xe3, 0xe0, 0xf0, 0xff}
+	tsCase := func(x []byte) {
+		x = append([]byte{}, x...)
+		rn.seen++
+		res.Count("trimspace/fields:cases")
+		res.Case("ts:"+string(x), true)
+		rn.add(pending{x: x, fn: "bytes.TrimSpace", extra: map[string]string{"fn": "TrimSpace"}, mk: func(c []byte) (string, string) {
+			return "ts " + common.Hex(c), common.Hex(bytes.TrimSpace(c))
+		}})
+		rn.add(pending{x: x, fn: "strings.Fields", extra: map[string]string{"fn": "Fields"}, mk: func(c []byte) (string, string) {
+			fs := strings.Fields(string(c))
+			parts := []string{fmt.Sprint(len(fs))}
+			for _, f := range fs {
+				parts = append(parts, common.Hex([]byte(f)))
+			}
+			return "fl " + common.Hex(c), strings.Join(parts, " ")
+		}})
+	}
+	tsCase(nil)
+	for a := 0; a < 256; a++ {
+		tsCase([]byte{byte(a)})
+		for b := 0; b < 256; b++ {
+			tsCase([]byte{byte(a), byte(b)})
+		}
+	}
+	for _, a := range spaceBytes {
+		for _, b := range spaceBytes {
+			for _, c := range spaceBytes {
+				tsCase([]byte{a, b, c})
+				if f.Tier == "thorough" || (int(a)+int(b)+int(c))%7 == 0 {
+					for _, d := range spaceBytes {
+						tsCase([]byte{a, b, c, d})
+					}
+				}
+			}
+		}
+	}
 	// the consumer: ScanDir's choice of files on generated directories
 	nDirs := 150
 	if f.Tier == "thorough" {
@@ -600,7 +641,7 @@ func runC19(rn *runner) {
 	}
 	runScan(rn, nDirs)
 	res.Exhaustive = false
-	res.Rule = fmt.Sprintf("corpus; MatchFile: every name of 1..4 '_'-joined segments over %q (+.go) (%d names), hand-picked names and every documented OS/arch token, each under %d tag sets; ShouldBuild: %d generated leading blocks (valid, negated and malformed terms, blank-line placement, non-+build comments, /* */ blocks, CR, NBSP) under random tag sets, all single/paired terms of the vocabulary under %d tag sets, %d random byte strings over a +build alphabet. Non-trivial: a name containing '_' / a content with a +build line inside the header. Oracles: documented rule re-stated in Go (all cases), go/build/constraint and go/build.Context.MatchFile on their common domain (no tags[\"*\"], no unix/cgo/ios/illumos/go1.x/wasip1 tags, no negated malformed term, no malformed term when tags[\"ignore\"], no //go:build, base name not starting with '_' or '.'). Consumers: "+scanRule,
+	res.Rule = fmt.Sprintf("corpus; MatchFile: every name of 1..4 '_'-joined segments over %q (+.go) (%d names), hand-picked names and every documented OS/arch token, each under %d tag sets; ShouldBuild: %d generated leading blocks (valid, negated and malformed terms, blank-line placement, non-+build comments, /* */ blocks, CR, NBSP) under random tag sets, all single/paired terms of the vocabulary under %d tag sets, %d random byte strings over a +build alphabet. Non-trivial: a name containing '_' / a content with a +build line inside the header. Oracles: documented rule re-stated in Go (all cases), go/build/constraint and go/build.Context.MatchFile on their common domain (no tags[\"*\"], no unix/cgo/ios/illumos/go1.x/wasip1 tags, no negated malformed term, no malformed term when tags[\"ignore\"], no //go:build, base name not starting with '_' or '.'). TrimSpace/Fields: the model's trim_space and fields against bytes.TrimSpace and strings.Fields on every byte string of length <= 2 and on strings of length 3-4 over the bytes of the UTF-8 Unicode spaces and their neighbours. Consumers: "+scanRule,
 		nameSegs, count, len(nameTagSets), nBlocks, len(small), nRand)
 }
 
